@@ -59,6 +59,18 @@ def specs(tier):
             spec = dict(D.TERMINALS[0])
             spec.update(grammar=gr, prince=D.PRINCE, omen=OMEN_A)
             yield spec
+    # three, four and five alpha runs in one structure: a capitalisation transition behind every one of them
+    for gr in ([('A1D1A2D1A1', .5), ('A1A2A1', .3), ('M', .2)], [('A2A1D1A1A2', .6), ('A1', .4)], [('M', .3), ('A1O1A2A1D1A1', .4), ('A1A1A1A1A1', .3)]):
+        for term in D.TERMINALS[:2]:
+            spec = dict(term)
+            spec.update(grammar=gr, prince=D.PRINCE, omen=OMEN_A)
+            yield spec
+    # an OMEN model that generates capitals: --all_lower collapses the masks of the dictionary words and nothing else
+    from . import c09
+    for gr in ([('M', .6), ('A1', .4)], [('A1D1', .5), ('M', .3), ('D1D1', .2)]):
+        spec = dict(D.TERMINALS[0])
+        spec.update(grammar=gr, prince=D.PRINCE, omen=c09.OMEN_U)
+        yield spec
     # lengths of two digits (A10, D12: one structure in ten of a real ruleset)
     for gr in ([('A10', .5), ('A1D12', .3), ('M', .2)], [('D12A10', .6), ('A10D1', .4)], [('M', .5), ('D12', .25), ('A10A1', .25)]):
         spec = dict(TERMINALS_LONG)
@@ -151,6 +163,28 @@ def run_load(shard, tier, acc):
                 acc.fail(case, msg, sig)
                 continue
             streams[(sb, sc)] = stream(Qc, g)
+            # guess level (one ruleset in three, and every ruleset whose OMEN model has capitals): what each pre-terminal of the flagged run writes
+            # is the reference expansion under the flags; a Markov pre-terminal writes its OMEN levels whatever the flags are
+            om = spec.get('omen', R.DEFAULT_OMEN)
+            if idx % 3 == 0 or any(a != a.lower() for a in om['alphabet']):
+                lines = []
+                g.print_guess = lines.append
+                for pt, _ in streams[(sb, sc)]:
+                    del lines[:]
+                    try:
+                        g.create_guesses([list(x) for x in pt])
+                    except Exception as e:
+                        acc.fail(case, 'create_guesses(%r) raised %r' % (pt, e), 'raise')
+                        break
+                    try:
+                        want = R.expand_pt(types, list(pt), omen=om)
+                    except (KeyError, IndexError):
+                        break       # not a pre-terminal of the reference grammar: reported by the stream comparison below
+                    if Counter(lines) != Counter(want):
+                        acc.fail(case, 'pre-terminal %r writes %r.. (%d strings), the ruleset under these flags gives %r.. (%d)'
+                                 % (pt, sorted(lines)[:4], len(lines), sorted(want)[:4], len(want)), 'guesses')
+                        break
+                acc.count('preterminals_expanded_under_flags', len(streams[(sb, sc)]))
         if len(streams) < 4:
             tree.rmtree(rdir)
             continue
